@@ -245,10 +245,32 @@ fn run<T: Elem + Clone + Default, N: ArrayLength>(case: &Case) -> Result<(), Str
         Op::BoxedCollect(c, fallible) => {
             let items = src::<T>(c, 0, salt);
             let want = snap(&items);
-            let r = if fallible {
-                GenericArray::<T, N>::try_boxed_from_iter(items).ok()
-            } else {
-                engine::catch(|| items.into_iter().collect::<Box<GenericArray<T, N>>>()).ok()
+            // the source is the Vec itself or a scripted iterator over it whose size hint is unknown, a loose upper bound, or
+            // counts down from a claimed total of N (reporting "nothing left" after N items whatever it still holds)
+            use harness::script::{Hint, ScriptIter};
+            let hint = match salt % 5 {
+                0 => None,
+                1 => Some(Hint::Unknown),
+                2 => Some(Hint::Countdown(n)),
+                3 => Some(Hint::CountdownExact(n)),
+                _ => Some(Hint::Lower0),
+            };
+            let r = match hint {
+                None => {
+                    if fallible {
+                        GenericArray::<T, N>::try_boxed_from_iter(items).ok()
+                    } else {
+                        engine::catch(|| items.into_iter().collect::<Box<GenericArray<T, N>>>()).ok()
+                    }
+                }
+                Some(h) => {
+                    let (it, _probe) = ScriptIter::new(items, vec![], h, false);
+                    if fallible {
+                        GenericArray::<T, N>::try_boxed_from_iter(it).ok()
+                    } else {
+                        engine::catch(|| it.collect::<Box<GenericArray<T, N>>>()).ok()
+                    }
+                }
             };
             match r {
                 Some(b) => {
